@@ -594,6 +594,51 @@ func ruleCopyLimit(c *Ctx) {
 			add(key, b.posOf(if2), bad == "", "store dominates both conjuncts; conj2 only under conj1; the both-true edge returns the *AccumulatedCopySizeError constructor's result; both conjunct blocks precede container.add, which is unreachable from the over-limit edge", bad)
 		}
 
+		// (x) the size error is reported on the over-limit edge of that test and nowhere else:
+		// a second, coarser test (against the length of a remembered text, say) refuses
+		// copies whose exact total is within the limit
+		{
+			key := "(x) the size error is returned on the over-limit edge of the limit test only"
+			bad := ""
+			for _, fn := range []*ssa.Function{bf, h} {
+				for _, bb := range fn.Blocks {
+					r, ok := lastInstr(bb).(*ssa.Return)
+					if !ok || len(r.Results) == 0 {
+						continue
+					}
+					ch := c.errFor(b).chain(r.Results[len(r.Results)-1], map[ssa.Value]bool{})
+					if !ch["T:*jsonpatch.AccumulatedCopySizeError"] {
+						continue
+					}
+					if fn == bf {
+						if bb != conj2.Succs[c2Succ] && !edgeDominates(conj2, c2Succ, bb) {
+							bad = "the return at " + b.posOf(r) + " answers with *AccumulatedCopySizeError off the over-limit edge of the test at " + b.posOf(lastInstr(conj2)) + ": a copy is refused although the exact total may be within the limit"
+						}
+						continue
+					}
+					// the handler hands back what the budget function reported
+					okPass := false
+					if gcall != nil {
+						for _, e := range errResultOf(gcall) {
+							for _, t := range nilTests(h, e) {
+								nb := t.Blk.Succs[t.NonNilSucc]
+								if nb == bb || nb.Dominates(bb) {
+									okPass = true
+								}
+							}
+						}
+					}
+					if !okPass {
+						bad = "the handler's return at " + b.posOf(r) + " answers with *AccumulatedCopySizeError without the budget function having reported it"
+					}
+				}
+				if bf == h {
+					break
+				}
+			}
+			add(key, b.posOf(lastInstr(conj2)), bad == "", "every return whose error can be the size error lies on the over-limit edge (or passes on the budget function's error)", bad)
+		}
+
 		// (vi) a copy that cannot take place is not charged, and its own failure is what is reported:
 		// the accumulation happens only after both locations have been resolved (every
 		// findObject call of the handler has answered with a container)
